@@ -59,13 +59,47 @@ fn captured_print(qr: &QRCode) -> Option<String> {
     let _ = std::fs::remove_file(&path);
     out
 }
+/// The same with standard output bound to a TERMINAL (a fresh pseudo-terminal in raw mode, drained by a reader thread): what
+/// `QRCode::print` shows a user who looks at it.  None when the system hands out no pseudo-terminal.
+fn captured_print_tty(qr: &QRCode) -> Option<String> {
+    use std::io::{Read, Write};
+    use std::os::unix::io::FromRawFd;
+    struct Restore(i32);
+    impl Drop for Restore { fn drop(&mut self) { let _ = std::io::stdout().flush(); unsafe { libc::dup2(self.0, 1); libc::close(self.0); } } }
+    unsafe {
+        let master = libc::posix_openpt(libc::O_RDWR | libc::O_NOCTTY);
+        if master < 0 { return None; }
+        if libc::grantpt(master) != 0 || libc::unlockpt(master) != 0 { libc::close(master); return None; }
+        let mut name = [0 as libc::c_char; 128];
+        if libc::ptsname_r(master, name.as_mut_ptr(), name.len()) != 0 { libc::close(master); return None; }
+        let slave = libc::open(name.as_ptr(), libc::O_RDWR | libc::O_NOCTTY);
+        if slave < 0 { libc::close(master); return None; }
+        let mut tio: libc::termios = std::mem::zeroed();
+        if libc::tcgetattr(slave, &mut tio) == 0 { libc::cfmakeraw(&mut tio); libc::tcsetattr(slave, libc::TCSANOW, &tio); }
+        let mut mfile = std::fs::File::from_raw_fd(master);
+        let reader = std::thread::spawn(move || { let mut out = Vec::new(); let mut buf = [0u8; 4096]; loop { match mfile.read(&mut buf) { Ok(0) | Err(_) => break, Ok(n) => out.extend_from_slice(&buf[..n]) } } out });
+        let _ = std::io::stdout().flush();
+        {
+            let saved = libc::dup(1);
+            if saved < 0 { libc::close(slave); return None; }
+            let _restore = Restore(saved);
+            libc::dup2(slave, 1);
+            qr.print();
+        }
+        libc::close(slave);                       // last descriptor of the slave side: the reader sees the end
+        let bytes = reader.join().ok()?;
+        String::from_utf8(bytes).ok()
+    }
+}
 pub fn text_event(id: u64, tag: &str, qr: &QRCode) -> Value {
     let q = qr.clone();
-    match guarded(30, move || { let s = q.to_str(); let p = captured_print(&q); (s, p) }) {
-        Ok((s, p)) => {
+    match guarded(30, move || { let s = q.to_str(); let p = captured_print(&q); let t = captured_print_tty(&q); (s, p, t) }) {
+        Ok((s, p, t)) => {
             let lines: Vec<Vec<u32>> = s.split('\n').map(cps).collect();
             let printed: Vec<Vec<u32>> = p.unwrap_or_else(|| "\u{0}capture failed".into()).split('\n').map(cps).collect();
-            json!({"ev": "Text", "id": id, "tag": tag, "size": qr.size, "vals": vals_of(qr), "kind": "Ok", "lines": lines, "printed": printed})
+            let mut ev = json!({"ev": "Text", "id": id, "tag": tag, "size": qr.size, "vals": vals_of(qr), "kind": "Ok", "lines": lines, "printed": printed});
+            if let Some(t) = t { ev["printed_tty"] = json!(t.split('\n').map(cps).collect::<Vec<_>>()); }
+            ev
         }
         Err(k) => json!({"ev": "Text", "id": id, "tag": tag, "size": qr.size, "vals": vals_of(qr), "kind": k, "lines": []}),
     }
